@@ -359,7 +359,7 @@ def check_fit(ctx, c):
         ctx.fail(dict(mech, what="latlon-fit-r2"), f"r2 = {r2!r} for noise-free Yadrenko data")
         return
     for p in ("var", "len_scale", "nugget"):
-        if abs(float(res[p]) - kw[p]) > 1e-4 * max(kw[p], 0.05 * (R if p == "len_scale" else 1.0)):
+        if abs(float(res[p]) - kw[p]) > 2e-3 * max(kw[p], 0.05 * (R if p == "len_scale" else 1.0)):
             ctx.fail(dict(mech, what="latlon-fit-parameter", par=p), f"{p}: fitted {res[p]} true {kw[p]}")
             return
 
